@@ -200,6 +200,13 @@ pub struct Sched {
     stats: RefCell<SchedStats>,
     freeze: Option<(usize, usize)>,
     track_hb: bool,
+    record_trace: bool,
+    locs: RefCell<Vec<usize>>,
+    coarse: bool,
+    /// kind of the yield point the current thread is suspended at: 0 atomic access, 1 closure / clone, 2 probe
+    yield_kind: Cell<u8>,
+    /// the suspended atomic access is the first shared action of its operation
+    yield_first: Cell<bool>,
 }
 
 impl Sched {
@@ -231,6 +238,11 @@ impl Sched {
             stats: RefCell::new(stats),
             freeze,
             track_hb: true,
+            record_trace: hooks::record_trace(),
+            locs: RefCell::new(Vec::new()),
+            coarse: hooks::coarse(),
+            yield_kind: Cell::new(1),
+            yield_first: Cell::new(true),
         }
     }
 
@@ -286,6 +298,12 @@ impl Sched {
 
 impl Monitor for Sched {
     fn before(&self, _a: &Access) {
+        let t = self.cur.get();
+        if t < self.n {
+            self.yield_kind.set(0);
+            let st = self.st.borrow();
+            self.yield_first.set(st[t].first_ev.is_none());
+        }
         self.yield_now();
     }
 
@@ -296,6 +314,22 @@ impl Monitor for Sched {
         self.event();
         self.stats.borrow_mut().events += 1;
         let t = self.cur.get();
+        if self.record_trace {
+            let mut locs = self.locs.borrow_mut();
+            let li = match locs.iter().position(|x| *x == a.addr) {
+                Some(i) => i,
+                None => {
+                    locs.push(a.addr);
+                    locs.len() - 1
+                }
+            };
+            let k = match a.kind {
+                AKind::Load => 0u8,
+                AKind::Store => 1,
+                AKind::Rmw => 2,
+            };
+            self.stats.borrow_mut().trace.push((t as u8, li as u16, k, wrote, old as u64, new as u64));
+        }
         let order = if wrote || a.kind != AKind::Rmw {
             a.order
         } else {
@@ -375,6 +409,7 @@ impl Hooks for Sched {
         if self.teardown.get() {
             return;
         }
+        self.yield_kind.set(1);
         self.yield_now();
         self.event();
     }
@@ -392,6 +427,7 @@ impl Hooks for Sched {
         self.inside.set(Some(t));
         self.event();
         // let the others run while this thread is inside the wrapped iterator
+        self.yield_kind.set(2);
         self.yield_now();
         if self.teardown.get() {
             return;
@@ -630,7 +666,9 @@ fn drive<'a>(sp: &'a Sched, bodies: Vec<Box<dyn FnOnce() + 'a>>, chooser: &mut d
             sp.stats.borrow_mut().hang = true;
             break;
         }
-        let real_choice = (cur_ok && !others.is_empty()) || (!cur_ok && others.len() > 1);
+        // coarse schedules: a running thread can only be preempted at a semantic point
+        let semantic = sp.yield_kind.get() != 0 || sp.yield_first.get();
+        let real_choice = ((cur_ok && !others.is_empty()) || (!cur_ok && others.len() > 1)) && (!sp.coarse || !cur_ok || semantic);
         let choice = if real_choice { chooser.choose(cur_ok, &others) } else { None };
         if real_choice {
             sp.stats.borrow_mut().choice_points += 1;
